@@ -7,7 +7,9 @@ user-domain evaluator.  Recorded are the validated configurations of both runs, 
 evaluator received, the user-domain results (and for the transformed run also the optimizer-domain ones),
 and the images / round trips / constraint differences of random user-domain points.  Inside Coq the two
 runs are compared with each other and with Model/Transforms.v (tolerance for reals, presence and infinities
-exactly).  Levels: EnsembleEvaluator.calculate, evaluator step, optimizer step (scripted optimizer plug-in).
+exactly).  Levels: EnsembleEvaluator.calculate, evaluator step, optimizer step and BasicOptimizer (scripted optimizer
+plug-in); every run issues a sequence of evaluator calls (single vectors, 2-D batches, gradient-only requests after
+a function request, combined requests).
 """
 from __future__ import annotations
 
@@ -30,24 +32,31 @@ KNOWN_ID = "C11:explicit-step-variables"
 
 RULE = ("generated: paired runs (without / with transforms) of the real code on random user-domain problems: V <= 5 variables, "
         "R <= 3 realizations, P <= 3 perturbations, K <= 2 objectives, 0-2 non-linear constraints, 0-3 linear constraint rows of "
-        "all bound kinds, variable bounds of all kinds, absolute and relative perturbations, boundary types NONE / TRUNCATE_BOTH / "
-        "MIRROR_BOTH with injected samples large enough to cross the bounds (several reflections), positive dyadic and non-dyadic "
-        "(3, 1.5, 0.75, full-precision) scales, offsets, objective and constraint scales; levels: EnsembleEvaluator.calculate "
-        "(function+gradient in one call, or function then gradient), evaluator step, optimizer step driven by a scripted optimizer "
-        "plug-in; 4 random user-domain points per case for the feasibility / round-trip clauses; a few step-level cases pass an "
-        "explicit variables= argument (region of the known finding). Non-trivial = a variable transform with a scale != 1 or an "
-        "offset != 0 is present and at least one perturbed vector was altered by the boundary handling or a constraint is violated; "
-        "distinct = distinct inputs.")
+        "all bound kinds, variable bounds of all kinds, absolute and relative perturbations mixed per variable (relative also on "
+        "equality bounds), boundary types NONE / TRUNCATE_BOTH / MIRROR_BOTH with injected samples large enough to cross the bounds "
+        "(several reflections), positive dyadic and non-dyadic (3, 1.5, 0.75, full-precision) scales, offsets; the variable "
+        "transform (scales+offsets / scales / offsets / VariableScaler(None, None) / none; one scale for all variables given as a "
+        "1-element array) and the function transforms (none / objective scaler / constraint scaler / both) are chosen "
+        "independently; uniform settings written as scalars in the configuration; the scaler object validates another "
+        "configuration with other linear constraints first (30 %). Levels: EnsembleEvaluator.calculate, evaluator step, optimizer "
+        "step and BasicOptimizer (configuration dict, or EnOptConfig validated with the transforms) driven by a scripted optimizer "
+        "plug-in. Every run issues a sequence of evaluator calls: function+gradient in one call or function then gradient-only "
+        "(cached function) at the start vector, then further single function requests (1-D or 1-row 2-D), 2-D batches of 2-3 "
+        "points, function then gradient-only and combined requests at other points; 4 random user-domain points per case for "
+        "the feasibility / round-trip clauses; a few step-level cases pass an explicit variables= argument (region of the known "
+        "finding). Non-trivial = some transform is not the identity; distinct = distinct inputs.")
 ASSUMPTIONS = [
     "scales are positive, offsets arbitrary; linear constraint rows are non-zero (property quantifier)",
     "objective / non-linear constraint transforms are the diagonal positive scalers users write (tests/test_optimizer.py); the base classes are abstract",
-    "the user's evaluator is a function of the user-domain variables it receives (here: affine + quadratic with dyadic coefficients)",
+    "the user's evaluator is a function of the user-domain variables it receives (here: affine + quadratic with dyadic coefficients); no evaluation fails (NaN) in the paired runs -- results without function values under transforms are exercised by C13's end-to-end stream",
     "lower bounds are never +inf and upper bounds never -inf in perturbation cases; absent scales/offsets are represented as 1/0 (exactly neutral also in floating point)",
     "function estimators are positively homogeneous (mean and stddev are); the paired runs use the default mean estimator without realization filters",
+    "weighted objective, gradients and the choice a tracker makes between results (judged in the optimizer domain by design) are not compared between the two runs",
 ]
 TRUSTED = [
     "the injected sampler plug-in, the scripted optimizer plug-in and the recording evaluator of the harness",
     "VariableScaler._equation_scaling (private attribute) is read as an observation and compared with the model's equation scaling",
+    "BasicOptimizer._optimizer_context (private attribute) is used to register the two plug-ins and a raw FINISHED_EVALUATION observer",
 ]
 
 SC_DY = [0.25, 0.5, 2.0, 4.0, 8.0, 1.0]
@@ -65,15 +74,53 @@ def _kind_bounds(rng, k, lo=-2, hi=1):
     return {"nb": (-INF, a + w), "free": (-INF, INF), "ab": (a, a + w), "eq": (a, a), "ap": (a, INF)}[k]
 
 
-def gen_case(rng, level=None, full=False, explicit=False):
-    level = level or rng.choice(["evaluator", "evaluator", "evaluator", "evalstep", "optstep"])
+def _point(rng, V):
+    return [_dy(rng, -2, 2) for _ in range(V)]
+
+
+def _gen_ops(rng, level, V, mode, rich):
+    """Evaluator calls of a run: F = function request (one point, or a 2-D batch of points), G = gradient-only request
+    (issued right after a function request at the same point: the cached-function path), FG = both in one call.
+    The first call(s) are at the start vector ("init")."""
+    if level == "evalstep":
+        return [{"k": "F", "pts": None, "init": True, "nd": 1}]
+    ops = [{"k": "FG", "pts": None, "init": True, "nd": 1}] if mode == "both" else \
+        [{"k": "F", "pts": None, "init": True, "nd": 1}, {"k": "G", "pts": None, "init": True, "nd": 1}]
+    for _ in range(rng.randint(1, 2) if rich else rng.choice([0, 0, 1, 2])):
+        kind = rng.choice(["F1", "FB", "FB", "FthenG", "FG"])
+        if kind == "F1":
+            ops.append({"k": "F", "pts": [_point(rng, V)], "init": False, "nd": rng.choice([1, 2])})
+        elif kind == "FB":
+            pts = []
+            while len(pts) < rng.randint(2, 3):
+                q = _point(rng, V)
+                if q not in pts:
+                    pts.append(q)
+            ops.append({"k": "F", "pts": pts, "init": False, "nd": 2})
+        elif kind == "FthenG":
+            q = _point(rng, V)
+            ops += [{"k": "F", "pts": [q], "init": False, "nd": 1}, {"k": "G", "pts": [q], "init": False, "nd": 1}]
+        else:
+            ops.append({"k": "FG", "pts": [_point(rng, V)], "init": False, "nd": 1})
+    return ops
+
+
+def gen_case(rng, level=None, full=False, explicit=False, rich=False, basic_cfg=None):
+    # BasicOptimizer is given the configuration as a dict (validated by BasicOptimizer itself, F11b: fixed by 8c7c19c)
+    # or as an EnOptConfig validated beforehand with the transforms as context (what the test-suite does)
+    basic_cfg = basic_cfg or rng.choice(["validated", "dict"])
+    level = level or rng.choice(["evaluator", "evaluator", "evaluator", "evalstep", "optstep", "optstep", "basic"])
     V, R, P = rng.randint(1, 5), rng.randint(1, 3), rng.randint(1, 3)
     K, C = rng.randint(1, 2), rng.choice([0, 0, 1, 2])
+    compact = V >= 2 and rng.random() < 0.15          # uniform settings written as scalars in the configuration
     lb, ub, x0, mag, ptype, btype = [], [], [], [], [], []
-    for _ in range(V):
-        pt = rng.choice([1, 1, 2])
-        k = "ab" if pt == 2 else rng.choice(["nb", "free", "ab", "ab", "ap"])
-        l, u = _kind_bounds(rng, k)
+    for i in range(V):
+        if compact and i > 0:
+            pt, l, u = ptype[0], lb[0], ub[0]
+        else:
+            pt = rng.choice([1, 1, 2])
+            k = rng.choice(["ab", "ab", "ab", "ab", "eq"]) if pt == 2 else rng.choice(["nb", "free", "ab", "ab", "ap"])
+            l, u = _kind_bounds(rng, k)
         lb.append(l)
         ub.append(u)
         if math.isfinite(l) and math.isfinite(u):
@@ -88,8 +135,12 @@ def gen_case(rng, level=None, full=False, explicit=False):
             v += rng.choice([-0.5, 0.5])        # initial point outside its bounds
         x0.append(v)
         ptype.append(pt)
-        mag.append(rng.choice([0.125, 0.25, 0.5]) if pt == 2 else rng.choice([0.125, 0.5, 1.0, 2.0]))
-        btype.append(rng.choice([1, 2, 3, 3]))
+        if compact and i > 0:
+            mag.append(mag[0])
+            btype.append(btype[0])
+        else:
+            mag.append(rng.choice([0.125, 0.25, 0.5]) if pt == 2 else rng.choice([0.125, 0.5, 1.0, 2.0]))
+            btype.append(rng.choice([1, 2, 3, 3]))
     samples = [[[rng.choice([0.0, 0.5, -0.5, 1.0, -1.0, 1.5, -2.0, 3.0, -3.5, 6.0, -7.0, 0.125]) for _ in range(V)]
                 for _ in range(P)] for _ in range(R)]
     weights = [rng.choice([1.0, 1.0, 2.0, 0.5]) for _ in range(R)]
@@ -111,17 +162,24 @@ def gen_case(rng, level=None, full=False, explicit=False):
         bnds = [_kind_bounds(rng, rng.choice(["nb", "ab", "eq", "ap", "free"]), -3, 2) for _ in range(C)]
         nl = {"lb": [b[0] for b in bnds], "ub": [b[1] for b in bnds]}
     pool = SC_DY + (SC_ND if full or rng.random() < 0.35 else [])
-    mode = rng.choice(["so", "so", "so", "s", "o", "so+f", "so+f", "f", "s+f"])
-    tr = {"scales": None, "offsets": None, "obj_scales": None, "nl_scales": None}
-    vm = mode.split("+")[0]
+    # the variable transform and the function transforms are chosen independently (each alone, and all together)
+    vm = rng.choice(["so", "so", "so", "so", "s", "s", "o", "id", "none"])
+    fm = rng.choice(["none", "none", "none", "obj", "nl", "obj+nl", "obj+nl"])
+    if vm == "none" and fm == "none":
+        vm = "so"
+    tr = {"scales": None, "offsets": None, "obj_scales": None, "nl_scales": None, "identity": vm == "id", "scales1": False}
     if "s" in vm:
-        tr["scales"] = [rng.uniform(0.2, 5.0) if full else rng.choice(pool) for _ in range(V)]
+        if not full and V >= 2 and rng.random() < 0.12:       # one scale for all variables, given as a 1-element array
+            tr["scales"] = [rng.choice([s for s in pool if s != 1.0])] * V
+            tr["scales1"] = True
+        else:
+            tr["scales"] = [rng.uniform(0.2, 5.0) if full else rng.choice(pool) for _ in range(V)]
     if "o" in vm:
         tr["offsets"] = [rng.uniform(-2, 2) if full else _dy(rng, -2, 2) for _ in range(V)]
-    if "f" in mode:
+    if "obj" in fm:
         tr["obj_scales"] = [rng.choice(pool) for _ in range(K)]
-        if C:
-            tr["nl_scales"] = [rng.choice(pool) for _ in range(C)]
+    if "nl" in fm and C:
+        tr["nl_scales"] = [rng.choice(pool) for _ in range(C)]
     points = []
     for _ in range(4):
         p = []
@@ -134,21 +192,24 @@ def gen_case(rng, level=None, full=False, explicit=False):
             else:
                 p.append(_dy(rng, -3, 3))
         points.append(p)
-    case = {"level": level, "mode": rng.choice(["both", "split"]), "x0": x0, "lb": lb, "ub": ub, "mag": mag, "ptype": ptype,
+    mode = rng.choice(["both", "split"])
+    case = {"level": level, "mode": mode, "x0": x0, "lb": lb, "ub": ub, "mag": mag, "ptype": ptype,
             "btype": btype, "samples": samples, "weights": weights, "obj_w": obj_w, "fun": fun, "lin": lin, "nl": nl, "tr": tr,
-            "points": points, "explicit": None, "script": [], "_tag": "full" if full else "dyadic"}
-    if level == "optstep":
-        case["script"] = [[_dy(rng, -2, 2) for _ in range(V)] for _ in range(rng.randint(0, 2))]
-    if explicit and level != "evaluator":
+            "points": points, "explicit": None, "ops": _gen_ops(rng, level, V, mode, rich), "compact": compact,
+            "reuse": vm != "none" and rng.random() < 0.3, "basic_cfg": basic_cfg,
+            "_tag": "full" if full else ("rich" if rich else "dyadic")}
+    if explicit and level in ("evalstep", "optstep"):
         case["explicit"] = [_dy(rng, -2, 2) for _ in range(V)]
         case["_tag"] = "explicit"
     return case
 
 
 def gen_cases(tier, rng):
-    n, nf, ne = (420, 60, 24) if tier == "quick" else (8000, 1500, 300)
+    n, nr, nf, ne = (330, 90, 60, 24) if tier == "quick" else (6500, 1500, 1500, 300)
     for _ in range(n):
         yield gen_case(rng)
+    for _ in range(nr):                        # batches / gradient-only requests / several evaluations per run
+        yield gen_case(rng, level=rng.choice(["evaluator", "optstep", "optstep", "basic"]), rich=True)
     for _ in range(nf):
         yield gen_case(rng, full=True)
     for _ in range(ne):
@@ -158,7 +219,7 @@ def gen_cases(tier, rng):
 # ---- running the real code --------------------------------------------------------
 def _has_var_transform(case):
     tr = case["tr"]
-    return tr is not None and (tr["scales"] is not None or tr["offsets"] is not None)
+    return tr is not None and (tr["scales"] is not None or tr["offsets"] is not None or bool(tr.get("identity")))
 
 
 def _make_transforms(case):
@@ -194,19 +255,24 @@ def _make_transforms(case):
 
     tr = case["tr"]
     arr = lambda v: None if v is None else np.array(v, dtype=float)  # noqa: E731
-    var = VariableScaler(arr(tr["scales"]), arr(tr["offsets"])) if _has_var_transform(case) else None
+    scales = arr(tr["scales"])
+    if scales is not None and tr.get("scales1"):
+        scales = scales[:1]                    # one scale for all variables: broadcast by the scaler / by NumPy
+    var = VariableScaler(scales, arr(tr["offsets"])) if _has_var_transform(case) else None
     obj = None if tr["obj_scales"] is None else ObjectiveScaler(arr(tr["obj_scales"]))
     nl = None if tr["nl_scales"] is None else ConstraintScaler(arr(tr["nl_scales"]))
     return OptModelTransforms(variables=var, objectives=obj, nonlinear_constraints=nl)
 
 
 def _config_dict(case):
-    d = {"variables": {"initial_values": list(case["x0"]), "lower_bounds": list(case["lb"]),
-                       "upper_bounds": list(case["ub"])},
+    compact = bool(case.get("compact"))
+    one = lambda v: v[0] if compact and all(x == v[0] for x in v) else list(v)  # noqa: E731
+    d = {"variables": {"initial_values": list(case["x0"]), "lower_bounds": one(case["lb"]),
+                       "upper_bounds": one(case["ub"])},
          "objectives": {"weights": list(case["obj_w"])},
          "realizations": {"weights": list(case["weights"])},
-         "gradient": {"number_of_perturbations": len(case["samples"][0]), "perturbation_magnitudes": list(case["mag"]),
-                      "perturbation_types": list(case["ptype"]), "boundary_types": list(case["btype"])},
+         "gradient": {"number_of_perturbations": len(case["samples"][0]), "perturbation_magnitudes": one(case["mag"]),
+                      "perturbation_types": one(case["ptype"]), "boundary_types": one(case["btype"])},
          "samplers": [{"method": "injected"}],
          "optimizer": {"method": "scripted"}}
     if case["lin"] is not None:
@@ -217,7 +283,17 @@ def _config_dict(case):
     return d
 
 
-def _plugin_manager(case, script_opt):
+def _decoy_dict(case):
+    """Another configuration of the same size with different linear constraints: validated with the same transforms
+    object before the run under test (a scaler object may serve several configurations one after the other)."""
+    V = len(case["x0"])
+    d = _config_dict(case)
+    d["linear_constraints"] = {"coefficients": [[3.0] * V, [0.5] + [0.0] * (V - 1), [-8.0] + [1.0] * (V - 1)],
+                               "lower_bounds": [-INF, -INF, -1.0], "upper_bounds": [1.0, 2.0, INF]}
+    return d
+
+
+def _plugins(case, to_opt):
     import numpy as np
     from ropt.plugins import PluginManager
     from ropt.plugins.optimizer.base import Optimizer, OptimizerPlugin
@@ -239,15 +315,20 @@ def _plugin_manager(case, script_opt):
             return method.lower() == "injected"
 
     class Scripted(Optimizer):
-        """function + gradient at the initial values, then function values at the scripted points"""
+        """issues the evaluator calls of the case through the optimizer callback, starting at the vector it is given"""
 
         def __init__(self, config, optimizer_callback):
             self._cb = optimizer_callback
 
         def start(self, initial_values):
-            self._cb(initial_values, return_functions=True, return_gradients=True)
-            for p in script_opt:
-                self._cb(np.array(p, dtype=float), return_functions=True, return_gradients=False)
+            for op in case["ops"]:
+                if op["init"]:
+                    y = initial_values
+                else:
+                    y = to_opt(np.array(op["pts"], dtype=float))
+                    if op["nd"] == 1:
+                        y = y[0]
+                self._cb(y, return_functions="F" in op["k"], return_gradients="G" in op["k"])
 
         @property
         def allow_nan(self):
@@ -255,7 +336,7 @@ def _plugin_manager(case, script_opt):
 
         @property
         def is_parallel(self):
-            return False
+            return True
 
     class ScriptedPlugin(OptimizerPlugin):
         def create(self, config, optimizer_callback):
@@ -264,10 +345,12 @@ def _plugin_manager(case, script_opt):
         def is_supported(self, method):
             return method.lower() == "scripted"
 
-    pm = PluginManager()
-    pm.add_plugin("sampler", "injected", InjPlugin())
-    pm.add_plugin("optimizer", "scripted", ScriptedPlugin())
-    return pm
+    def install(pm):
+        pm.add_plugin("sampler", "injected", InjPlugin())
+        pm.add_plugin("optimizer", "scripted", ScriptedPlugin())
+        return pm
+
+    return install, PluginManager
 
 
 def _fl(a):
@@ -331,18 +414,23 @@ def _one_run(case, transforms):
 
     to_opt = (lambda p: np.array(p, dtype=float)) if transforms is None or transforms.variables is None else \
         (lambda p: transforms.variables.to_optimizer(np.array(p, dtype=float)))
-    script_opt = [to_opt(p) for p in case["script"]]
-    pm = _plugin_manager(case, script_opt)
+    install, PluginManager = _plugins(case, to_opt)
+    if transforms is not None and transforms.variables is not None and case.get("reuse"):
+        EnOptConfig.model_validate(_decoy_dict(case), context=transforms)
     user, opt = [], []
-    if case["level"] == "evaluator":
+    level = case["level"]
+    if level == "evaluator":
         config = EnOptConfig.model_validate(_config_dict(case), context=transforms)
-        ee = EnsembleEvaluator(config, transforms, evaluator, pm)
-        y0 = config.variables.initial_values
-        if case["mode"] == "both":
-            res = list(ee.calculate(y0, compute_functions=True, compute_gradients=True))
-        else:
-            res = list(ee.calculate(y0, compute_functions=True, compute_gradients=False))
-            res += list(ee.calculate(y0, compute_functions=False, compute_gradients=True))
+        ee = EnsembleEvaluator(config, transforms, evaluator, install(PluginManager()))
+        res = []
+        for op in case["ops"]:
+            if op["init"]:
+                y = config.variables.initial_values
+            else:
+                y = to_opt(op["pts"])
+                if op["nd"] == 1:
+                    y = y[0]
+            res += list(ee.calculate(y, compute_functions="F" in op["k"], compute_gradients="G" in op["k"]))
         opt = res
         user = res if transforms is None else [r.transform_from_optimizer(transforms) for r in res]
     else:
@@ -353,12 +441,24 @@ def _one_run(case, transforms):
             opt.extend(event.data.get("transformed_results", event.data["results"]))
             seen["config"] = event.config
 
-        context = OptimizerContext(evaluator=evaluator, plugin_manager=pm)
-        context.add_observer(EventType.FINISHED_EVALUATION, observer)
-        plan = Plan(context)
-        step = plan.add_step("evaluator" if case["level"] == "evalstep" else "optimizer")
-        kw = {} if case["explicit"] is None else {"variables": list(case["explicit"])}
-        plan.run_step(step, config=_config_dict(case), transforms=transforms, **kw)
+        if level == "basic":
+            from ropt.plan import BasicOptimizer
+            cfg = _config_dict(case)
+            if case.get("basic_cfg", "validated") == "validated":
+                # the documented use with transforms: a configuration validated with the transforms as context
+                cfg = EnOptConfig.model_validate(cfg, context=transforms)
+            bo = BasicOptimizer(cfg, evaluator, transforms=transforms)
+            ctx = bo._optimizer_context        # noqa: SLF001  (no public way to add plug-ins / observers of raw events)
+            install(ctx.plugin_manager)
+            ctx.add_observer(EventType.FINISHED_EVALUATION, observer)
+            bo.run()
+        else:
+            context = OptimizerContext(evaluator=evaluator, plugin_manager=install(PluginManager()))
+            context.add_observer(EventType.FINISHED_EVALUATION, observer)
+            plan = Plan(context)
+            step = plan.add_step("evaluator" if level == "evalstep" else "optimizer")
+            kw = {} if case["explicit"] is None else {"variables": list(case["explicit"])}
+            plan.run_step(step, config=_config_dict(case), transforms=transforms, **kw)
         config = seen["config"]
     return {"cfg": _cfg_obs(config), "requests": requests, "user": [_result_obs(r) for r in user],
             "opt": [_result_obs(r) for r in opt]}
@@ -380,7 +480,8 @@ def run_impl(case):
         y = p if var is None else var.to_optimizer(p)
         back = y if var is None else var.from_optimizer(y)
         pts.append({"y": _fl(y), "back": _fl(back)})
-    eq = None if var is None else getattr(var, "_equation_scaling", None)
+    # the equation scaling is state of the scaler object: only meaningful for a configuration with linear constraints
+    eq = None if var is None or case["lin"] is None else getattr(var, "_equation_scaling", None)
     return {"plain": plain, "scaled": scaled, "points": pts, "eq": _fl(eq)}
 
 
@@ -451,11 +552,8 @@ def _scale(case, obs):
 
 def _calls(case):
     p0 = case["explicit"] if case["explicit"] is not None else case["x0"]
-    if case["level"] == "evaluator":
-        return [("RBoth", p0)] if case["mode"] == "both" else [("RFunctions", p0), ("RGradient", p0)]
-    if case["level"] == "evalstep":
-        return [("RFunctions", p0)]
-    return [("RBoth", p0)] + [("RFunctions", p) for p in case["script"]]
+    kind = {"F": "RFunctions", "G": "RGradient", "FG": "RBoth"}
+    return [(kind[op["k"]], [p0] if op["init"] else op["pts"]) for op in case["ops"]]
 
 
 def coq_case(case, obs):
@@ -467,7 +565,7 @@ def coq_case(case, obs):
     pcodes, bcodes = cq.zs(case["ptype"]), cq.zs(case["btype"])
     user = (f"(Build_ucfg {cq.qs(case['x0'])} {cq.ers(case['lb'])} {cq.ers(case['ub'])} {cq.qs(case['mag'])} "
             f"(map pt {pcodes}) (map bt {bcodes}))")
-    calls = cq.lst(f"({k}, {cq.qs(p)})" for k, p in _calls(case))
+    calls = cq.lst(f"({k}, {cq.qmat(ps)})" for k, ps in _calls(case))
     points = cq.lst(f"({cq.qs(p)}, {cq.qs(o['y'])}, {cq.qs(o['back'])})" for p, o in zip(case["points"], obs["points"]))
     return ("(Chk_C11.Build_case " + " ".join([
         cq.q(_scale(case, obs)), f"(codes_ok {pcodes} {bcodes})", user, _lin_term(case["lin"]), _nl_term(case["nl"]),
@@ -545,6 +643,21 @@ def oracle(case, obs):
         for key in a:
             if not _same(a[key], b.get(key), S):
                 return {"clause": "results_invariant", "detail": {"result": k, "field": key, "plain": a[key], "scaled": b.get(key)}}
+    # function requests hand the evaluator the user's own points (each R times, in order), and every function result
+    # reports the user's point: stated against the case, not against the other run
+    R = len(case["weights"])
+    if not (case["explicit"] is not None and _has_var_transform(case)):
+        want = []
+        for (kind, pts), call in zip(_calls(case), T["requests"]):
+            rows = [[float(v) for v in q] for q in pts for _ in range(R)]
+            if kind == "RFunctions" and not _same(call, rows, S):
+                return {"clause": "function_request_is_user_point", "detail": {"points": pts, "evaluator_received": call}}
+            if kind != "RFunctions" and not _same(call[:R] if kind == "RBoth" else [], rows if kind == "RBoth" else [], S):
+                return {"clause": "function_request_is_user_point", "detail": {"points": pts, "evaluator_received": call[:R]}}
+            want += [("F", q) for q in pts] if kind == "RFunctions" else ([("F", pts[0]), ("G", pts[0])] if kind == "RBoth" else [("G", pts[0])])
+        got = [(r["type"], r["variables"]) for r in T["user"]]
+        if len(got) != len(want) or any(g[0] != w[0] or not _same(g[1], [float(v) for v in w[1]], S) for g, w in zip(got, want)):
+            return {"clause": "result_variables_are_user_points", "detail": {"expected": want, "reported": got}}
     margin = Fraction(S) / 10**6
     for p, o in zip(case["points"], obs["points"]):
         if not _same(o["back"], [float(v) for v in p], S):
@@ -571,23 +684,35 @@ def nontrivial(case, obs):
 
 def _bounds_active(case, obs):
     """Some perturbed row differs from x + (user-domain magnitude) * sample, i.e. boundary handling acted."""
-    rows = [r for call in obs["plain"]["requests"] for r in call]
-    x = case["explicit"] if case["explicit"] is not None else case["x0"]
     mags = obs["plain"]["cfg"]["mag"]
-    raw = [[xv + m * z for xv, m, z in zip(x, mags, zr)] for zs in case["samples"] for zr in zs]
-    return any(r not in raw and r != [float(v) for v in x] for r in rows)
+    for (kind, pts), call in zip(_calls(case), obs["plain"]["requests"]):
+        if kind == "RFunctions":
+            continue
+        x = [float(v) for v in pts[0]]
+        raw = [[xv + m * z for xv, m, z in zip(x, mags, zr)] for zs in case["samples"] for zr in zs]
+        if any(r not in raw and r != x for r in call):
+            return True
+    return False
 
 
 def features(case, obs):
     tr = case["tr"]
-    return {"level": case["level"], "mode": case["mode"] if case["level"] == "evaluator" else "-", "V": len(case["x0"]),
+    ops = case["ops"]
+    names = [k for k in ("scales", "offsets", "obj_scales", "nl_scales") if tr[k] is not None] + (["identity-scaler"] if tr.get("identity") else [])
+    violated = any(v > 0 for r in obs["plain"]["user"] if r["type"] == "F" and r["info"] is not None
+                   for k in ("bound_violation", "linear_violation", "nonlinear_violation") for v in (r["info"].get(k) or []))
+    return {"level": case["level"] + ("-" + case.get("basic_cfg", "validated") if case["level"] == "basic" else ""),
+            "mode": case["mode"] if case["level"] != "evalstep" else "-", "V": len(case["x0"]),
             "R": len(case["weights"]), "P": len(case["samples"][0]),
             "linear_rows": 0 if case["lin"] is None else len(case["lin"]["A"]),
             "nonlinear": 0 if case["nl"] is None else len(case["nl"]["lb"]),
-            "transform": "+".join(k for k in ("scales", "offsets", "obj_scales", "nl_scales") if tr[k] is not None) or "none",
+            "transform": "+".join(names) or "none", "one_scale_for_all": bool(tr.get("scales1")),
             "relative_perturbation": 2 in case["ptype"], "mirror": 3 in case["btype"], "truncate": 2 in case["btype"],
             "boundary_handling_acted": _bounds_active(case, obs), "explicit_variables": case["explicit"] is not None,
-            "tag": case.get("_tag", "corpus")}
+            "calls": len(ops), "batched_function_request": any(op["k"] == "F" and not op["init"] and len(op["pts"]) > 1 for op in ops),
+            "gradient_only_request": any(op["k"] == "G" for op in ops), "scalar_settings": bool(case.get("compact")),
+            "scaler_served_another_config_before": bool(case.get("reuse")) and _has_var_transform(case),
+            "some_violation_positive": violated, "tag": case.get("_tag", "corpus")}
 
 
 def known_signature(case, obs, violation):
@@ -622,40 +747,58 @@ def shrink(case):
         if len(case["lin"]["A"]) > 1:
             for i in range(len(case["lin"]["A"])):
                 yield {**case, "lin": {k: v[:i] + v[i + 1:] for k, v in case["lin"].items()}}
-    if case["script"]:
-        yield {**case, "script": []}
+    if len(case["ops"]) > 1:
+        for i in range(len(case["ops"])):
+            op = case["ops"][i]
+            if op["k"] == "F" and i + 1 < len(case["ops"]) and case["ops"][i + 1]["k"] == "G":
+                continue                       # a gradient-only request needs the function request before it
+            yield {**case, "ops": case["ops"][:i] + case["ops"][i + 1:]}
+    for i, op in enumerate(case["ops"]):
+        if op["k"] == "F" and not op["init"] and len(op["pts"]) > 1:
+            yield {**case, "ops": case["ops"][:i] + [{**op, "pts": op["pts"][:-1]}] + case["ops"][i + 1:]}
+    if case.get("reuse"):
+        yield {**case, "reuse": False}
+    if case.get("compact"):
+        yield {**case, "compact": False}
     if len(case["points"]) > 1:
         for i in range(len(case["points"])):
             yield {**case, "points": [case["points"][i]]}
     if len(case["samples"][0]) > 1:
         yield {**case, "samples": [zs[:1] for zs in case["samples"]]}
-    if case["level"] != "evaluator" and case["explicit"] is None:
-        yield {**case, "level": "evaluator", "mode": "both", "script": []}
+    if case["level"] in ("optstep", "basic") and case["explicit"] is None:
+        yield {**case, "level": "evaluator"}
     if any(t != 1 for t in case["btype"]):
         yield {**case, "btype": [1] * len(case["btype"])}
 
 
 def search(rng, case):
-    for _ in range(400):
+    for _ in range(300):
         yield gen_case(rng)
+    for _ in range(100):
+        yield gen_case(rng, level=rng.choice(["evaluator", "optstep", "basic"]), rich=True)
 
 
 MANIFEST = {
     "level_text": ("Machine-checked Coq proof over exact rationals, for all vector lengths, positive scales and arbitrary offsets, that the "
                    "executable model of the scaling transforms (Model/Transforms.v) satisfies: to/from_optimizer are mutually inverse; a point "
                    "satisfies the user's bounds and linear constraints (any bound kinds, non-zero rows) iff its image satisfies the transformed "
-                   "ones, and the back-transformed differences are exactly the user-domain differences; the boundary handling of perturbations "
-                   "(NONE / TRUNCATE_BOTH / MIRROR_BOTH, any repeat count) commutes with the positive affine map, so every vector handed to the "
-                   "evaluator equals the one of the untransformed run for absolute and relative magnitudes; per-realization values, function "
+                   "ones, and the back-transformed differences are exactly the user-domain differences; validated perturbation magnitudes are the "
+                   "user-domain magnitude divided by the scale for absolute and relative types; the boundary handling of perturbations "
+                   "(NONE / TRUNCATE_BOTH / MIRROR_BOTH, any repeat count) commutes with the positive affine map, so every component of every "
+                   "vector handed to the evaluator -- single vectors, batches and perturbed vectors -- is the user-domain expression "
+                   "apply_bounds(x + m_user z) and equals the one of the untransformed run; per-realization values, function "
                    "values of any positively homogeneous estimator and all constraint differences / violations are unchanged. The model is tied "
-                   "to the code on every run by paired runs of the real code (without / with transforms, same injected samples) compared inside "
-                   "Coq with each other and with the model."),
+                   "to the code on every run by paired runs of the real code (without / with transforms, same injected samples; "
+                   "EnsembleEvaluator, evaluator step, optimizer step, BasicOptimizer) compared inside Coq with each other and with the model."),
     "level_note": ("Trusted: Coq kernel + VM; the Python drivers (injected sampler plug-in, scripted optimizer plug-in, recording evaluator) and "
                    "exact rational printing. Objective / constraint transforms are the diagonal positive scalers of the test-suite (the base "
-                   "classes are abstract); the estimator is a section hypothesis (positive homogeneity; instantiated with the weighted mean); "
-                   "weighted objective and gradients legitimately live in optimizer coordinates and are not compared. Known finding "
+                   "classes are abstract); the estimator is a section hypothesis (positive homogeneity; instantiated with the weighted mean, the "
+                   "function values themselves are compared between the two real runs, not recomputed by the model); "
+                   "weighted objective and gradients legitimately live in optimizer coordinates and are not compared; evaluations that fail "
+                   "(NaN) do not occur in the paired runs. Known finding "
                    "C11:explicit-step-variables (explicit variables= of a step is taken as optimizer-domain) is re-confirmed on tagged cases and "
-                   "reported as KNOWN-FINDING. All theorems print 'Closed under the global context'."),
-    "technique": "Coq proof (list induction, field/lra over Q, extended reals) on an executable Gallina model + in-Coq paired-run differential correspondence with the real transforms, configuration validation, EnsembleEvaluator and plan steps",
+                   "reported as KNOWN-FINDING; F11b (BasicOptimizer validated a configuration dict without the transforms) is fixed by 8c7c19c "
+                   "and its input is in corpus/C11. All theorems print 'Closed under the global context'."),
+    "technique": "Coq proof (list induction, field/lra over Q, extended reals) on an executable Gallina model + in-Coq paired-run differential correspondence with the real transforms, configuration validation, EnsembleEvaluator, plan steps and BasicOptimizer",
     "design_ref": "DESIGN.md section 4, C11",
 }
